@@ -168,7 +168,78 @@ func mutClass(m string) string {
 	return m
 }
 
+// rawBytes draws an unstructured input: short, biased towards the small integers and the
+// 0x00/0xff bytes that length prefixes and discriminators are made of.
+func rawBytes(r *prng.Rand) []byte {
+	n := r.Intn(41)
+	b := make([]byte, n)
+	for i := range b {
+		switch r.Intn(4) {
+		case 0:
+			b[i] = 0
+		case 1:
+			b[i] = byte(r.Intn(6))
+		case 2:
+			b[i] = 0xff
+		default:
+			b[i] = byte(r.Intn(256))
+		}
+	}
+	return b
+}
+
+// runC07Raw feeds unstructured bytes to the decoders of ANY record type of a program,
+// also types no value of which can be built (a struct holding a union without members):
+// their decoders exist and take bytes like all others.
+func runC07Raw(c *Ctx) *Replay {
+	n := c.N
+	if len(n.Batch.Programs) == 0 {
+		return nil
+	}
+	for try := 0; try < 32; try++ {
+		p := &n.Batch.Programs[c.R.Intn(len(n.Batch.Programs))]
+		bs := n.ByProg[p.ID]
+		if len(bs) == 0 {
+			continue
+		}
+		b := bs[c.R.Intn(len(bs))]
+		recs := b.Schema.Records()
+		if len(recs) == 0 {
+			continue
+		}
+		d := recs[c.R.Intn(len(recs))]
+		if b.Types[d.Name] == nil || b.Schema.HasZeroSizeElem(schema.Type{Named: d.Name}) {
+			continue
+		}
+		c.Log("C07raw", b.Name(), d.Name)
+		for i := 0; i < 12; i++ {
+			in := rawBytes(c.R)
+			for _, dec := range []string{"unmarshal", "decode", "makefrombytes"} {
+				sc := Scenario{Kind: "corrupt", Prog: b.Prog.ID, Mask: b.Mask, PeerMask: -1, Type: d.Name, Input: in, Mutation: "raw", Decoder: dec}
+				if dec == "decode" {
+					sc.Sched = drawSchedule(c.R, len(in), nil)
+					sc.Reader = readerKinds[c.R.Intn(len(readerKinds))]
+				}
+				viol := execCorrupt(c.N, &sc)
+				c.Count("evaluations", 1)
+				c.Count("fault:corrupt-raw", 1)
+				c.Count("outcome:"+sc.Extra["outcome"], 1)
+				if viol != nil {
+					if rp := c.shrinkAndReport(&sc, viol); rp != nil {
+						return rp
+					}
+				}
+			}
+		}
+		return nil
+	}
+	return nil
+}
+
 func runC07(c *Ctx) *Replay {
+	if c.R.Chance(1, 6) {
+		return runC07Raw(c)
+	}
 	cfg := val.DefaultCfg()
 	cfg.LongProb = 100
 	cfg.LongLen = 400
